@@ -27,6 +27,9 @@ type pkgInfo struct {
 	fset  *token.FileSet
 }
 
+// repoRoot: the source tree the facts are extracted from (positions are made relative to it)
+var repoRoot = "/repo"
+
 func loadRepo(root string) map[string]*pkgInfo {
 	pkgs := map[string]*pkgInfo{}
 	fset := token.NewFileSet()
@@ -117,6 +120,7 @@ func main() {
 		fmt.Fprintln(os.Stderr, "usage: extract <depth|ctors|decoders> <repo>")
 		os.Exit(2)
 	}
+	repoRoot = os.Args[2]
 	pkgs := loadRepo(os.Args[2])
 	var out interface{}
 	switch os.Args[1] {
